@@ -157,6 +157,20 @@ GASES = {
 REL = ("relative", None)
 MMOL = ("molar", "mmol")
 
+#: an adsorbate WITHOUT thermodynamic backend, described by user-supplied constants (the library's documented fallback)
+USER_GAS_NAME = "verif-user-vapour"
+USER_FLUID = ru.UserFluid(p_sat=9.5e4, molar_mass=40.0, rho_liq_molar=0.03, rho_vap_molar=1.2e-4)
+GASES["USER"] = (USER_GAS_NAME, USER_FLUID, 90.0)
+_WITH_USER_GAS = ("N2", "N2", "Ar", "O2", "Kr", "CO2", "USER", "USER")
+
+
+def ensure_user_gas():
+    """(Re-)register the user-defined adsorbate (reset_registries() removes it)."""
+    from pygaps.core.adsorbate import Adsorbate
+    from pygaps.data import ADSORBATE_LIST
+    if not any(a.name == USER_GAS_NAME for a in ADSORBATE_LIST):
+        Adsorbate(USER_GAS_NAME, store=True, cross_sectional_area=0.2, **ru.user_fluid_properties(USER_FLUID))
+
 
 def _positions(inc):
     c = np.concatenate([[0.0], np.cumsum(np.asarray(inc, dtype=float))])
@@ -197,6 +211,8 @@ def _curve(d, p, T, desorption=False):
 
 def build_synthetic(d):
     name, fluid, T = GASES[d["gas"]]
+    if d["gas"] == "USER":
+        ensure_user_gas()
     p = _grid(d["p_lo"], d["p_hi"], d["inc"], d["spacing"])
     q = _curve(d, p, T)
     branch = [False] * len(p)
@@ -240,6 +256,8 @@ def iso_key(d):
 def fluid_T(iso):
     """(CoolProp fluid, temperature in K) of an isotherm, for the reference unit factors."""
     name = str(iso.adsorbate)
+    if name == USER_GAS_NAME:
+        return USER_FLUID, (float(iso._temperature) if iso.temperature_unit == "K" else float(iso._temperature) + 273.15)
     e = next((t for t in K.backend_table() if t[0] == name), None)
     if e is None:
         raise HarnessError(f"no backend entry for {name}")
@@ -321,6 +339,8 @@ def _reimport(iso, via):
     finally:
         shutil.rmtree(tmp, ignore_errors=True)
         K.reset_registries()
+        if str(iso.adsorbate) == USER_GAS_NAME:
+            ensure_user_gas()
 
 
 def scaled_clone(iso, c):
@@ -642,7 +662,7 @@ def strat_bet():
     # categorical draws first, the isotherm (long lists) last: draws that follow long lists come out skewed
     return st.builds(lambda br, lim, tgt, sc, iso: {"iso": iso, "branch": br, "limits": lim, "tgt": tgt, "scale": sc},
                      st.sampled_from(["ads", "des", "ads"]), limits(), target(), scale_factor(),
-                     iso_source(N2_SAMPLES, ["bet", "lang", "meso", "micro", "bet"]))
+                     iso_source(N2_SAMPLES, ["bet", "lang", "meso", "micro", "bet"], gases=_WITH_USER_GAS))
 
 
 def check_bet(desc, ctx):
@@ -700,7 +720,7 @@ def ordered_loading(iso, branch):
 def strat_langmuir():
     return st.builds(lambda br, lim, tgt, sc, iso: {"iso": iso, "branch": br, "limits": lim, "tgt": tgt, "scale": sc},
                      st.sampled_from(["ads", "des", "ads"]), limits(), target(), scale_factor(),
-                     iso_source(N2_SAMPLES, ["lang", "bet", "micro", "meso", "lang"]))
+                     iso_source(N2_SAMPLES, ["lang", "bet", "micro", "meso", "lang"], gases=_WITH_USER_GAS))
 
 
 def check_langmuir(desc, ctx):
@@ -765,7 +785,7 @@ def strat_tplot():
     return st.builds(lambda br, model, lim, tgt, sc, iso: {"iso": iso, "branch": br, "model": model, "limits": lim,
                                                           "tgt": tgt, "scale": sc},
                      st.sampled_from(["ads", "des", "ads"]), st.sampled_from(THICKNESS), limits(), target(),
-                     scale_factor(), iso_source(N2_SAMPLES, ["bet", "meso", "lang", "micro"]))
+                     scale_factor(), iso_source(N2_SAMPLES, ["bet", "meso", "lang", "micro"], gases=_WITH_USER_GAS))
 
 
 def check_tplot(desc, ctx):
@@ -939,7 +959,7 @@ def strat_dubinin(kind):
     return st.builds(lambda br, e, lim, tgt, sc, iso: {"iso": iso, "branch": br, "exp": e, "limits": lim, "tgt": tgt,
                                                       "scale": sc},
                      st.sampled_from(["ads", "des", "ads"]), exp, limits(), target(), scale_factor(),
-                     iso_source(["Takeda 5A", "UiO-66(Zr)", "Carbon X1", "NaY"], ["micro", "lang", "micro"]))
+                     iso_source(["Takeda 5A", "UiO-66(Zr)", "Carbon X1", "NaY"], ["micro", "lang", "micro"], gases=_WITH_USER_GAS))
 
 
 def _check_dubinin(desc, ctx, kind):
@@ -1195,7 +1215,7 @@ def strat_henry(draw, method):
         d["limits"] = draw(st.sampled_from([None, "p", None, "l"]))
         d["limit_pos"] = [draw(st.floats(0.3, 0.95)), draw(st.floats(0.1, 0.9))]
     tgt_any, tgt_sup = draw(target()), draw(target(abs_only=True, bases=("molar", "mass")))
-    iso = draw(iso_source(HENRY_SAMPLES, ["lang", "bet", "micro", "lang"], sample_share=2))
+    iso = draw(iso_source(HENRY_SAMPLES, ["lang", "bet", "micro", "lang"], sample_share=2, gases=_WITH_USER_GAS))
     sup = iso["kind"] == "sample" and iso["name"] in SUPERCRITICAL
     if iso["kind"] != "sample" and method == "slope" and draw(st.sampled_from([False, False, True])):
         iso = dict(iso, origin=True)
